@@ -31,10 +31,10 @@ CLANGXX = "clang++"
 # "diag" = diagnostic flavour (recover + report hook), "asan" = ASan+UBSan fatal,
 # "plain" = unsanitized -O2.
 # ---------------------------------------------------------------------------
-_G_CHECKS = "-fsanitize=undefined,float-cast-overflow,float-divide-by-zero"
-_L_CHECKS = ("-fsanitize=undefined,float-cast-overflow,float-divide-by-zero,"
+_G_CHECKS = "-fsanitize=undefined,float-cast-overflow"
+_L_CHECKS = ("-fsanitize=undefined,float-cast-overflow,"
              "unsigned-integer-overflow,implicit-conversion -fno-sanitize=object-size")
-_L_UBONLY = "-fsanitize=undefined,float-cast-overflow,float-divide-by-zero -fno-sanitize=object-size"
+_L_UBONLY = "-fsanitize=undefined,float-cast-overflow -fno-sanitize=object-size"
 
 FLAVOURS = {
     # name: (compiler, flags)
